@@ -236,6 +236,11 @@ func (pr *printer) flowTaskFunc(f *FlowP, t *TaskP) string {
 	switch t.Form {
 	case FormMethod:
 		fmt.Fprintf(&pr.b, "func (w *%sw) T%d%s {\n%s}\n", strings.ToLower(pr.pfx), t.ID, sig, body("w.h"))
+		if pr.wrap && t.ID%3 == 1 {
+			// the receiver of the method value is itself a call: it is evaluated with the
+			// arguments, before anything runs, like any other operand
+			return fmt.Sprintf("%s.T%d", pr.probe("method-receiver", "w"), t.ID)
+		}
 		return fmt.Sprintf("w.T%d", t.ID)
 	case FormTop:
 		name := fmt.Sprintf("%sF%d", strings.ToLower(pr.pfx), t.ID)
@@ -336,7 +341,7 @@ func (pr *printer) predFunc(f *FlowP, t *TaskP) string {
 	return "func(" + strings.Join(params, ", ") + ") bool { return " + c + ") }"
 }
 
-func emitterOpts(pr *printer, n int, nest, shared, slice bool) []string {
+func emitterOpts(pr *printer, n int, nest, shared, slice, next bool) []string {
 	var out []string
 	if shared {
 		out = append(out, "cff.WithEmitter("+pr.probe("emitter-shared", "h.SharedEmitter()")+")")
@@ -350,6 +355,10 @@ func emitterOpts(pr *printer, n int, nest, shared, slice bool) []string {
 		i = 2
 	}
 	for ; i < n; i++ {
+		if next {
+			out = append(out, "cff.WithEmitter("+pr.probe("emitter", "h.NextEmitter()")+")")
+			continue
+		}
 		out = append(out, "cff.WithEmitter("+pr.probe("emitter", fmt.Sprintf("h.Emitter(%d)", i))+")")
 	}
 	return out
@@ -408,14 +417,18 @@ func usesOther(p *Prog) bool {
 
 // NumOther is the size of the pool of types from packages the program files do
 // not import: 0-7 from package other, 8-11 from cffverif/rt/other/v2 (whose
-// package name, other, is not the last element of its import path).
-const NumOther = 12
+// package name, other, is not the last element of its import path), 12-13 from
+// that package again but named like types 0 and 1 of the first one.
+const NumOther = 14
 
 // otherName spells type k of the pool (prefix ""), its constructor ("Mk") or
 // projection ("Un") as the ext package sees it.
 func otherName(k int, prefix string) string {
 	if k < 8 {
 		return fmt.Sprintf("other.%sX%d", prefix, k)
+	}
+	if k >= 12 {
+		return fmt.Sprintf("other2.%sX%d", prefix, k-12)
 	}
 	return fmt.Sprintf("other2.%sY%d", prefix, k-8)
 }
@@ -540,7 +553,7 @@ func (pr *printer) flow(f *FlowP) string {
 	}
 	if f.Emitters > 0 {
 		items = append(items, renderItem{render: func() string {
-			return strings.Join(emitterOpts(pr, f.Emitters, f.EmitNest, f.EmitShared, f.EmitSlice), ",\n\t\t")
+			return strings.Join(emitterOpts(pr, f.Emitters, f.EmitNest, f.EmitShared, f.EmitSlice, f.EmitNext), ",\n\t\t")
 		}})
 		if f.InstrFlow {
 			items = append(items, renderItem{render: func() string {
@@ -761,7 +774,7 @@ func (pr *printer) par(p *ParP) string {
 	}
 	if p.Emitters > 0 {
 		items = append(items, renderItem{render: func() string {
-			return strings.Join(emitterOpts(pr, p.Emitters, p.EmitNest, p.EmitShared, p.EmitSlice), ",\n\t\t")
+			return strings.Join(emitterOpts(pr, p.Emitters, p.EmitNest, p.EmitShared, p.EmitSlice, p.EmitNext), ",\n\t\t")
 		}})
 		if p.InstrPar {
 			items = append(items, renderItem{render: func() string {
